@@ -544,6 +544,12 @@ def check_C10(tier, seed):
                 picked.append(x + [{"op": "reopen"}])
             ws.append(Workload(s, picked, ["a", "b", "c", "d"], mode="disk", tag="r", origin=st["instance"],
                                flags={"u8": True} if vlib.ALL.index(s) % 2 == 1 else None))
+            # (M) two connections: a second database object is loaded from the same directory while the first stays open; a
+            # seed-chosen half of the calls goes through it, both are observed after every call (MultiConn.tla: Coherent)
+            nm = 12 if tier == "quick" else 80
+            ws.append(Workload(s, libcheck.with_via(picked[:nm], r), ["a", "b", "c", "d"], mode="disk", tag="m", origin=st["instance"],
+                               flags={"conn2": True, "rep": True}))
+        libcheck.model_check_multiconn(wd, mc_stats, max_calls=4 if tier == "quick" else 5)
         return ws
 
     return history_check(
